@@ -157,6 +157,17 @@ def gen_solver_plan(seed, tier, prop, knobs=None):
                     if rng.random() < k['p_illegal']:
                         bad = dict(bounds); bad['tight'] = False; bad['clip'] = rng.choice([True, False])
                         ops.append({'op': 'set', 'what': 'bounds', 'arg': bad})
+                    if rng.random() < k.get('p_reject', 0.0):
+                        # a reconfiguration that must be rejected (min > max on one side): the ranges in force stay in force
+                        bad = {'lo': list(bounds['lo']), 'hi': list(bounds['hi']), 'invalid': True}
+                        i = rng.randrange(dim)
+                        l_, h_ = bad['lo'][i], bad['hi'][i]
+                        if l_ == h_ or abs(l_) == inf or abs(h_) == inf: bad['lo'][i], bad['hi'][i] = 2.0, 1.0
+                        else: bad['lo'][i], bad['hi'][i] = h_, l_
+                        t_ = rng.choice([(True, None), (None, None), (None, True), (True, False), (False, None)])
+                        if t_[0] is not None: bad['tight'] = t_[0]
+                        if t_[1] is not None: bad['clip'] = t_[1]
+                        ops.append({'op': 'set', 'what': 'bounds', 'arg': bad})
             elif what == 'termination':
                 t = gen.gen_simple_term(rng, solver)
                 if t: ops.append({'op': 'set', 'what': 'termination', 'arg': t})
